@@ -81,6 +81,7 @@ type Observers struct {
 }
 
 type World struct {
+	LiveInitAbove bool // SetInitialVersion(v > first stored version) was called on the live handle
 	WBaseLogged bool // the working tree was started from a retained version by setWorkingFrom (its op log is complete)
 	Prop    string
 	Backend string // mem | trace | prefix | level
@@ -247,6 +248,7 @@ func (w *World) newTree() {
 	// handles handed out by the replaced tree object belong to its (now stale) node database: one writer object per
 	// store is the supported use, so they are not followed any further
 	w.Held = nil
+	w.LiveInitAbove = false
 }
 
 func (w *World) WorkingVersion() int64 {
@@ -487,6 +489,19 @@ func (w *World) Apply(op Op) (v *Violation) {
 		}
 		w.Pins[op.N] = append(w.Pins[op.N], ex)
 		w.Labels["pin"] = true
+	case "setinit":
+		// SetInitialVersion on the live handle at an arbitrary moment: "only used during the initial SaveVersion() call
+		// for a tree with no other versions, and otherwise ignored"
+		t.SetInitialVersion(uint64(op.N))
+		if w.Latest == 0 && len(w.Vers) == 0 {
+			w.Cfg.InitVer, w.Cfg.InitMethod = uint64(op.N), true
+			w.InitPending = true
+		} else {
+			w.Labels["setinit_on_nonempty_store_ignored"] = true
+			if op.N > w.First {
+				w.LiveInitAbove = true // LoadVersion on this handle is documented to fail from now on
+			}
+		}
 	case "reload":
 		// LoadVersion on the LIVE handle (same tree object, same node cache): the working tree is replaced by the
 		// target version, uncommitted changes are dropped
